@@ -791,7 +791,9 @@ impl<W: std::io::Write + std::io::Seek> FlacChannelWriter<W> {
                 sample_rate,
                 bits_per_sample,
                 channels,
-                total_samples.and_then(NonZero::new),
+                total_samples
+                    .map(|samples| NonZero::new(samples).ok_or(Error::InvalidTotalSamples))
+                    .transpose()?,
             )?,
             finalized: false,
         })
